@@ -118,9 +118,6 @@ func (s *Sim) opC07Modify() {
 	wasFrozen := e.IsFrozen()
 	r.Logf("c07_modify: %s on %s by %s stake %d->%d (min %d) commission=%d val=%s frozen=%v ...", p.Acc.Name, e.Chain, s.NameOf(creator), cur, amount, min, commission, val.Name, wasFrozen)
 	kind := "c07_modify"
-	if amount > cur && wasFrozen && cur < min && amount >= min {
-		kind = "c07_modify_unfreezing_increase" // the stake of an entry frozen for low stake is raised to the minimum or above
-	}
 	res := s.msgTx(kind, []sdk.Msg{msg}, func(ctx sdk.Context) error {
 		_, err := s.S.PairingServer.StakeProvider(ctx, msg)
 		return err
@@ -175,9 +172,6 @@ func (s *Sim) opC07Unstake() {
 	}
 	msg := &pairingtypes.MsgUnstakeProvider{Creator: creator, ChainID: e.Chain, Validator: c06Val(val).String()}
 	kind := "c07_unstake"
-	if byProvider {
-		kind = "c07_unstake_by_provider"
-	}
 	r.Logf("c07_unstake: %s from %s by %s (stake %s, chains=%d) val=%s ...", p.Acc.Name, e.Chain, s.NameOf(creator), e.Stake.Amount, nChains, val.Name)
 	res := s.msgTx(kind, []sdk.Msg{msg}, func(ctx sdk.Context) error {
 		_, err := s.S.PairingServer.UnstakeProvider(ctx, msg)
@@ -260,6 +254,8 @@ type c07Mon struct {
 	s        *Sim
 	prev     map[string]*c07ProvSnap
 	poisoned map[string]bool // providers hit by a listed known finding: no longer evaluated
+	// signature only: VerifyDelegatorBalance of each vault at the previous observation
+	prevVaultDiff map[string]math.Int
 }
 
 func c07Render(ds []c07Deleg) string {
@@ -279,8 +275,11 @@ type c07Deleg struct {
 }
 
 func newC07Mon(s *Sim) *c07Mon {
-	m := &c07Mon{s: s, prev: map[string]*c07ProvSnap{}, poisoned: map[string]bool{}}
+	m := &c07Mon{s: s, prev: map[string]*c07ProvSnap{}, poisoned: map[string]bool{}, prevVaultDiff: map[string]math.Int{}}
 	m.observe("arm", false)
+	if debugOn {
+		s.BeforeTx = append(s.BeforeTx, func(w *World, name string) { s.R.Logf("      [dbg] tx %s begins", name) })
+	}
 	s.AfterTx = append(s.AfterTx, func(w *World, tx *TxResult) { m.observe("tx:"+tx.Name, tx.Err == nil) })
 	s.AfterBlock = append(s.AfterBlock, func(w *World) { m.observe("block", false) })
 	return m
@@ -290,10 +289,13 @@ func (m *c07Mon) observe(where string, afterTx bool) {
 	s := m.s
 	r := s.R
 	ctx := s.Ctx
-	curProv, curVault := "", ""
+	curProv, curVault, sigOverride := "", "", ""
 	fail := func(class, format string, a ...interface{}) {
 		a = append(a, where, s.Height())
 		sig := "after " + where
+		if sigOverride != "" {
+			sig = sigOverride
+		}
 		if kind := s.c06SlashErrOf(curVault); where == "block" && kind != "" {
 			sig = "after block: rebalancing the vault after a validator slash failed (" + kind + ") and the error was ignored"
 		}
@@ -335,6 +337,13 @@ func (m *c07Mon) observe(where string, afterTx bool) {
 		}
 	}
 	cur := map[string]*c07ProvSnap{}
+	vaultDiff := map[string]math.Int{}
+	defer func() { m.prevVaultDiff = vaultDiff }()
+	for _, pa := range s.Providers {
+		if d, _, verr := s.K.Dualstaking.VerifyDelegatorBalance(ctx, pa.Vault.Account.Addr); verr == nil {
+			vaultDiff[pa.Vault.Addr] = d
+		}
+	}
 	for _, md := range mds {
 		p := md.Provider
 		es := byProv[p]
@@ -368,8 +377,29 @@ func (m *c07Mon) observe(where string, afterTx bool) {
 			vaultDel = d.Amount.Amount
 		}
 		r.OracleEvals++
+		if !sumStake.Equal(vaultDel) && strings.Contains(where, "movestake") && m.prev[p] != nil && len(m.prev[p].stakes) == len(es) {
+			// signature only: did one entry grow while nothing shrank?
+			up, down := 0, 0
+			for _, e := range es {
+				if pv, ok := m.prev[p].stakes[e.Chain]; ok {
+					if e.Stake.Amount.GT(pv) {
+						up++
+					} else if e.Stake.Amount.LT(pv) {
+						down++
+					}
+				}
+			}
+			if up == 1 && down == 0 {
+				sigOverride = "after a move-stake whose source and destination chain are the same (the entry's stake grows, nothing is delegated)"
+			}
+		}
+		if pd, ok := m.prevVaultDiff[md.Vault]; ok && afterTx && sigOverride == "" && !sumStake.Equal(vaultDel) && !pd.IsZero() && pd.Abs().Equal(sumStake.Sub(vaultDel).Abs()) {
+			sigOverride = "a stake change moved the vault's existing validator/provider imbalance (rounding residue or failed slash rebalancing) into its provider delegation"
+		}
 		if !sumStake.Equal(vaultDel) {
-			fail("c07-selfstake-vs-vault-delegation", "provider %s: entries' self stake sums to %s but its vault %s delegates %s to it", s.NameOf(p), sumStake, s.NameOf(md.Vault), vaultDel)
+			fail("c07-selfstake-vs-vault-delegation", "provider %s: entries' self stake sums to %s but its vault %s delegates %s to it; entries now: %s; at the previous observation: %s", s.NameOf(p), sumStake, s.NameOf(md.Vault), vaultDel, c07DescribeEntries(es), c07DescribeSnap(m.prev[p]))
+			sigOverride = ""
+			continue
 		}
 		// (3) recorded total delegations == sum of non-vault delegations
 		dels, derr := s.K.Dualstaking.GetProviderDelegators(ctx, p)
@@ -402,14 +432,31 @@ func (m *c07Mon) observe(where string, afterTx bool) {
 			continue
 		}
 		r.Probe("c07_provider_changed_by_tx")
+		// what kind of change was it (only used to give a violation a specific signature)
+		redistributed := false
+		if prev != nil && len(prev.stakes) > len(es) && len(es) > 0 {
+			ps := math.ZeroInt()
+			for _, v := range prev.stakes {
+				ps = ps.Add(v)
+			}
+			redistributed = ps.Equal(sumStake)
+		}
 		for _, e := range es {
+			sigOverride = ""
+			if redistributed {
+				sigOverride = "after an unstake by the provider address (its stake is redistributed to the remaining entries)"
+			} else if prev != nil {
+				if pst, ok := prev.stakes[e.Chain]; ok && prev.frozen[e.Chain] && !e.IsFrozen() && e.Stake.Amount.GT(pst) {
+					sigOverride = "after a stake increase that automatically unfreezes the entry"
+				}
+			}
 			r.OracleEvals++
 			if !sumStake.IsPositive() {
 				continue
 			}
 			wantDT := md.TotalDelegations.Amount.Mul(e.Stake.Amount).Quo(sumStake)
 			if !e.DelegateTotal.Amount.Equal(wantDT) {
-				fail("c07-delegate-total-not-proportional", "provider %s entry on %s: DelegateTotal=%s but floor(TotalDelegations %s * stake %s / total self stake %s) = %s", s.NameOf(p), e.Chain, e.DelegateTotal.Amount, md.TotalDelegations.Amount, e.Stake.Amount, sumStake, wantDT)
+				fail("c07-delegate-total-not-proportional", "provider %s entry on %s: DelegateTotal=%s but floor(TotalDelegations %s * stake %s / total self stake %s) = %s; entries now: %s; before the transaction: %s", s.NameOf(p), e.Chain, e.DelegateTotal.Amount, md.TotalDelegations.Amount, e.Stake.Amount, sumStake, wantDT, c07DescribeEntries(es), c07DescribeSnap(prev))
 			}
 			minStake := s.K.Spec.GetMinStake(ctx, e.Chain).Amount
 			if prev != nil {
@@ -423,7 +470,41 @@ func (m *c07Mon) observe(where string, afterTx bool) {
 			}
 		}
 	}
+	sigOverride = ""
 	m.prev = cur
+}
+
+func c07DescribeEntries(es []epochstoragetypes.StakeEntry) string {
+	var sb strings.Builder
+	for _, e := range es {
+		sb.WriteString(e.Chain + ":stake=" + e.Stake.Amount.String() + ",delegateTotal=" + e.DelegateTotal.Amount.String())
+		if e.IsFrozen() {
+			sb.WriteString(",frozen")
+		}
+		sb.WriteString(" ")
+	}
+	return sb.String()
+}
+
+func c07DescribeSnap(p *c07ProvSnap) string {
+	if p == nil {
+		return "(no entries)"
+	}
+	chains := make([]string, 0, len(p.stakes))
+	for c := range p.stakes {
+		chains = append(chains, c)
+	}
+	sort.Strings(chains)
+	var sb strings.Builder
+	for _, c := range chains {
+		sb.WriteString(c + ":stake=" + p.stakes[c].String() + ",total=" + p.total[c].String())
+		if p.frozen[c] {
+			sb.WriteString(",frozen")
+		}
+		sb.WriteString(" ")
+	}
+	sb.WriteString("delegations=" + p.delegs)
+	return sb.String()
 }
 
 func c07Changed(prev, cur *c07ProvSnap) bool {
